@@ -9,6 +9,12 @@ stringify case  {id, kind:"str", v:<spec value tree>, ir:bool}
     plain data goes through ctx.set; functions, back references (cycles) and shared nodes are wired by
     path assignments in the script; the value actually built is re-read and compared with the tree
     -> out = value(str wire | undef) | throw | escape ;  rt = JSON.parse(text) outcome when out is a string
+history case    {id, kind:"hp", t, ed, t2}    r1 = JSON.parse(t); the script edits r1 as ed says; r2 = JSON.parse(t2)
+                {id, kind:"hs", v, ed}        s1 = JSON.stringify(v); the script edits v; s2 = JSON.stringify(v)
+    ed = {op: none|push|seti|trunc|put|del, path: [{a:"i",i}|{a:"k",n}], n: key units, i: index, x: spec value}
+    -> p1, p2 = outcomes of the two calls (snapshots taken at the moment of the call), rt2 = JSON.stringify(r2) (hp),
+       after1 = r1 / v re-read after the second call, alias = r1 and r2 share a container (===, hp),
+       edit = "ok" | "none" | class the edit threw, esc = class of an exception that left the script ("" = none)
 The driver computes no expectation: it only builds operands and records what the engine did.
 
 Contexts: parsing and compiling the helper prelude (__cls, __protos) cost 4 ms per case, 20 times the JSON calls
@@ -64,6 +70,53 @@ _STR_BODY = (
 # the two procedures are part of the prelude (parsed and compiled once per context); a case's script is one call
 _PRELUDE += ("var __runParse = function() {" + _PARSE_BODY + "};"
              "var __runStr = function() {" + _STR_BODY + "};")
+# histories: __snap converts its arguments to wire values AT THE CALL (the structure is edited afterwards)
+_PRELUDE += (
+    "var __nav = function(root, path) { var x = root; for (var i = 0; i < path.length; i++) { x = x[path[i]]; } return x; };"
+    "var __edit = function(root) {"
+    "  if (__op === 'none') return;"
+    "  try {"
+    "    var c = __nav(root, __path);"
+    "    if (__op === 'push') c.push(__x);"
+    "    else if (__op === 'seti') c[__idx] = __x;"
+    "    else if (__op === 'trunc') c.length = 0;"
+    "    else if (__op === 'put') c[__key] = __x;"
+    "    else if (__op === 'del') delete c[__key];"
+    "    __snap('edit', 'v', true);"
+    "  } catch (e) { __snap('edit', 't', __cls(e)); }"
+    "};"
+    "var __conts = function(x, acc) {"
+    "  if (x !== null && typeof x === 'object') {"
+    "    acc.push(x); var i;"
+    "    if (Array.isArray(x)) { for (i = 0; i < x.length; i++) __conts(x[i], acc); }"
+    "    else { var ks = Object.keys(x); for (i = 0; i < ks.length; i++) __conts(x[ks[i]], acc); }"
+    "  }"
+    "  return acc;"
+    "};"
+    "var __alias = function(a, b) {"
+    "  var ca = __conts(a, []), cb = __conts(b, []), i, j;"
+    "  for (i = 0; i < ca.length; i++) { for (j = 0; j < cb.length; j++) { if (ca[i] === cb[j]) return true; } }"
+    "  return false;"
+    "};"
+    "var __runHP = function() {"
+    "  var r1, ok1 = false, r2, ok2 = false;"
+    "  try { r1 = JSON.parse(__t); ok1 = true; } catch (e) { __snap('p1', 't', __cls(e)); }"
+    "  if (ok1) { __snap('p1', 'v', r1); __edit(r1); }"
+    "  try { r2 = JSON.parse(__t2); ok2 = true; } catch (e3) { __snap('p2', 't', __cls(e3)); }"
+    "  if (ok2) {"
+    "    __snap('p2', 'v', r2);"
+    "    try { __snap('rt2', 'v', JSON.stringify(r2)); } catch (e2) { __snap('rt2', 't', __cls(e2)); }"
+    "  }"
+    "  if (ok1) __snap('after1', 'v', r1);"
+    "  if (ok1 && ok2) __snap('alias', 'v', __alias(r1, r2));"
+    "};"
+    "var __runHS = function() {"
+    "  try { __snap('p1', 'v', JSON.stringify(__v)); } catch (e) { __snap('p1', 't', __cls(e)); }"
+    "  __edit(__v);"
+    "  try { __snap('p2', 'v', JSON.stringify(__v)); } catch (e3) { __snap('p2', 't', __cls(e3)); }"
+    "  __snap('after1', 'v', __v);"
+    "};"
+)
 _PARSE_JS = "__out('start'); __runParse();"
 _STR_TAIL = "__runStr();"
 
@@ -221,6 +274,11 @@ def _context(case, api):
             got[name] = a
             return None
         ctx.set("__out", out_fn)
+
+        def snap_fn(name, tag, a):
+            got[name] = (tag, str(a) if tag == "t" else to_wire_deep(a))
+            return None
+        ctx.set("__snap", snap_fn)
         ev = api.eval_outcome(ctx, _PRELUDE + "__out('prelude');", wall=240.0, cap=2_000_000)
         if ev["o"] != "value" or "prelude" not in got:
             raise RuntimeError("helper prelude did not run: %r" % (ev,))
@@ -245,6 +303,8 @@ def c19_driver(case, api):
 def _run_case(case, api):
     st = _context(case, api)
     ctx, got = st["ctx"], st["got"]
+    if case["kind"] in ("hp", "hs"):
+        return _run_hist(case, api, ctx, got)
     if case["kind"] == "parse":
         ctx.set("__t", wire.from_units(case["t"]))
         src = _PARSE_JS
@@ -296,3 +356,42 @@ def _result(case, ev, got):
     elif ev["o"] != "value":
         raise RuntimeError("script failed after the call under test: %r" % (ev,))
     return res
+
+
+def _plain(v):
+    """spec value (plain data only) -> Python operand for ctx.set; numbers as host floats"""
+    return _Builder(False).build(v, [])
+
+
+def _run_hist(case, api, ctx, got):
+    ed = case["ed"]
+    ctx.set("__op", ed["op"])
+    ctx.set("__path", [wire.from_units(st["n"]) if st["a"] == "k" else int(st["i"]) for st in ed["path"]])
+    ctx.set("__key", wire.from_units(ed["n"]))
+    ctx.set("__idx", int(ed["i"]))
+    ctx.set("__x", _plain(ed["x"]))
+    if case["kind"] == "hp":
+        ctx.set("__t", wire.from_units(case["t"]))
+        ctx.set("__t2", wire.from_units(case["t2"]))
+        src = "__out('start'); __runHP();"
+    else:
+        ctx.set("__v", _plain(case["v"]))
+        src = "__out('start'); __runHS();"
+    ev = api.eval_outcome(ctx, src, wall=case.get("wall", 240.0), cap=case.get("cap", 2_000_000))
+    if "start" not in got:
+        raise RuntimeError("driver script did not run: %r" % (ev,))
+    res = {"id": case["id"], "esc": "" if ev["o"] == "value" else _escape_of(ev)["cls"], "edit": "none", "alias": False}
+    for name in ("p1", "p2", "rt2", "after1"):
+        if name in got:
+            tag, a = got[name]
+            res[name] = {"o": "throw", "cls": a} if tag == "t" else {"o": "value", "v": a}
+        else:
+            res[name] = {"o": "none"}
+    if "edit" in got:
+        res["edit"] = "ok" if got["edit"][0] == "v" else got["edit"][1]
+    if "alias" in got:
+        a = got["alias"][1]
+        if a.get("k") != "bool":
+            raise RuntimeError("alias probe returned %r" % (a,))
+        res["alias"] = bool(a["b"])
+    return res, ev["o"] == "value"
